@@ -145,10 +145,41 @@ Section Total.
     - intros _. exact HC.
   Qed.
 
-  Lemma dec_key_np : forall kt jk, dec_key JK kdec kt jk <> Panic.
+  Section kjson_ind'.
+    Variable Q : kjson JK -> Prop.
+    Hypothesis HL : forall j, Q (KLeaf j).
+    Hypothesis HA : forall l, Forall Q l -> Q (KArr l).
+    Hypothesis HO : forall l, Forall (fun fj => Q (snd fj)) l -> Q (KObj l).
+    Fixpoint kjson_ind' (k : kjson JK) : Q k :=
+      match k with
+      | KLeaf j => HL j
+      | KArr l => HA l ((fix go (l : list (kjson JK)) : Forall Q l :=
+                           match l with [] => Forall_nil _ | x :: r => Forall_cons x (kjson_ind' x) (go r) end) l)
+      | KObj l => HO l ((fix go (l : list (string * kjson JK)) : Forall (fun fj => Q (snd fj)) l :=
+                           match l with [] => Forall_nil _ | x :: r => Forall_cons x (kjson_ind' (snd x)) (go r) end) l)
+      end.
+  End kjson_ind'.
+
+  Lemma dec_key_np : forall jk kt, dec_key JK kdec env kt jk <> Panic.
   Proof.
-    intros kt jk. destruct kt; simpl; try discriminate;
-      destruct (kdec b jk) eqn:E; simpl; try discriminate; exfalso; eapply kdec_np; eauto.
+    induction jk using kjson_ind'; intro kt.
+    - destruct kt; simpl; try discriminate;
+        destruct (kdec b j) eqn:E; simpl; try discriminate; exfalso; eapply kdec_np; eauto.
+    - destruct kt; simpl; try discriminate.
+      destruct (Nat.eqb (List.length l) n); [|discriminate].
+      destruct (mapM (dec_key JK kdec env kt) l) eqn:E; simpl; try discriminate.
+      exfalso. revert E. apply mapM_no_panic. intros x Hin. rewrite Forall_forall in H. now apply H.
+    - destruct kt; simpl; try discriminate.
+      destruct (struct_fields env n) as [ds|]; [|discriminate].
+      assert (Hnp : dec_kfields (fun ft j => dec_key JK kdec env ft j) l ds <> Panic).
+      { revert ds. induction l as [|[f j] l IHl]; intros [|[g ft] ds]; simpl; try discriminate.
+        inversion H as [|? ? Hj Hl]; subst. simpl in Hj.
+        destruct (String.eqb f g); [|discriminate].
+        destruct (dec_key JK kdec env ft j) eqn:Ej; simpl; try discriminate; [|now apply Hj in Ej].
+        specialize (IHl Hl ds).
+        destruct (dec_kfields (fun ft0 j0 => dec_key JK kdec env ft0 j0) l ds); simpl; try discriminate.
+        congruence. }
+      destruct (dec_kfields (fun ft j => dec_key JK kdec env ft j) l ds); simpl; try discriminate. congruence.
   Qed.
 
   Lemma hole_np_of_T : forall v oi, T v -> wt env v = true -> ENC 0 v = Ok oi -> HOLE (ty_of v) oi <> Panic.
@@ -171,7 +202,7 @@ Section Total.
   Lemma entries_np : forall k t kvs entries,
     Forall (fun kv => T (fst kv) /\ T (snd kv)) kvs -> entries_wt env k t kvs = true ->
     mapM (fun kv => do i <- ENC 0 (snd kv); do jk <- enc_key JK kenc (fst kv); Ok (jk, i)) kvs = Ok entries ->
-    mapM (fun e => do k' <- dec_key JK kdec k (fst e); do v <- HOLE t (snd e); Ok (k', v)) entries <> Panic.
+    mapM (fun e => do k' <- dec_key JK kdec env k (fst e); do v <- HOLE t (snd e); Ok (k', v)) entries <> Panic.
   Proof.
     intros k t kvs entries HT Hwt H. apply mapM_Forall2 in H.
     eapply mapM_np_F2; [exact H|].
@@ -184,7 +215,7 @@ Section Total.
       apply andb_true_iff in Hwt. destruct Hwt as [Hwt Htb].
       apply andb_true_iff in Hwt. destruct Hwt as [_ Hwb].
       apply ty_eqb_eq in Htb. inversion HT as [|? ? [_ HTb] _]; subst. simpl in HTb.
-      destruct (dec_key JK kdec k jk) eqn:Ek; simpl; try discriminate.
+      destruct (dec_key JK kdec env k jk) eqn:Ek; simpl; try discriminate.
       + assert (Hh := hole_np_of_T _ _ HTb Hwb Hi).
         destruct (HOLE (ty_of b) i) eqn:Eh; simpl; try discriminate. congruence.
       + exfalso. eapply dec_key_np; eauto.
